@@ -211,11 +211,14 @@ var returnAliasExceptions = map[string]string{
 	"sen.Bytes": "documented: 'The returned buffer is the Writer buffer and is reused on the next call to write' (caller-supplied Writer only)",
 }
 
-func ruleReturnAlias(prog *Program, rep *Report, prop string) {
+func ruleReturnAlias(prog *Program, rep *Report, prop string, pkgs ...string) {
+	if len(pkgs) == 0 {
+		pkgs = []string{"oj", "sen", "pretty"}
+	}
 	rep.Rules = append(rep.Rules, "D-alias: no package-level function of oj, sen or pretty returns memory owned by a Writer (a slice loaded from a Writer field, a reslice of it, or the result of a Writer method that returns such memory): never for a Writer taken from a sync.Pool, and for a caller-supplied Writer only where the documentation says so; a copying conversion (string(b), make+copy, append to a fresh slice) breaks the ownership")
 	sum := &ownSummary{}
 	checked := 0
-	for _, rel := range []string{"oj", "sen", "pretty"} {
+	for _, rel := range pkgs {
 		sp := prog.SSAPkg(rel)
 		if sp == nil {
 			rep.Errorf("ssa package %s missing", rel)
@@ -301,7 +304,28 @@ func ruleReturnAlias(prog *Program, rep *Report, prop string) {
 }
 
 // rulePoolPut: a pooled object must not be used after it was put back.
-func rulePoolPut(prog *Program, rep *Report) {
+// pooledTypeName: "rel.T" of the type the result of a sync.Pool Get is asserted to in fn ("" if none).
+func pooledTypeName(fn *ssa.Function, gets map[ssa.Value]bool) string {
+	for _, b := range fn.Blocks {
+		for _, ins := range b.Instrs {
+			ta, ok := ins.(*ssa.TypeAssert)
+			if !ok || !gets[ta.X] {
+				continue
+			}
+			t := ta.AssertedType
+			if p, ok := t.(*types.Pointer); ok {
+				t = p.Elem()
+			}
+			if n, ok := t.(*types.Named); ok && n.Obj().Pkg() != nil {
+				return strings.TrimPrefix(strings.TrimPrefix(n.Obj().Pkg().Path(), modulePath), "/") + "." + n.Obj().Name()
+			}
+		}
+	}
+	return ""
+}
+
+// rulePoolPut takes an optional scope: the pooled types ("oj.Parser", ...) the calling property is about.
+func rulePoolPut(prog *Program, rep *Report, scope ...string) {
 	rep.Rules = append(rep.Rules, "D-put: in every function that takes an object from a sync.Pool, Put is deferred, or no instruction reachable after a non-deferred Put uses the object (use after Put lets two goroutines share one instance)")
 	sites := 0
 	for _, pk := range prog.LibPkgs() {
@@ -345,6 +369,18 @@ func rulePoolPut(prog *Program, rep *Report) {
 			if len(gets) == 0 {
 				continue
 			}
+			if len(scope) > 0 {
+				pt := pooledTypeName(fn, gets)
+				in := false
+				for _, sc := range scope {
+					if sc == pt {
+						in = true
+					}
+				}
+				if !in {
+					continue
+				}
+			}
 			d := derivedFrom(fn, gets)
 			key := fn.String()
 			deferred, plain := 0, 0
@@ -379,8 +415,12 @@ func rulePoolPut(prog *Program, rep *Report) {
 			}
 		}
 	}
-	if sites < 6 {
-		rep.Errorf("D-put found only %d functions using sync.Pool.Get (floor 6): anchors did not resolve", sites)
+	floor := 6
+	if len(scope) > 0 {
+		floor = 2
+	}
+	if sites < floor {
+		rep.Errorf("D-put found only %d functions using sync.Pool.Get (floor %d): anchors did not resolve", sites, floor)
 	}
 }
 
